@@ -141,7 +141,11 @@ def fix_constraint_cholesky(ZTx, s_chol, d, P, P_inorder, U, tolerance):
             cholesky_funcs.
     """
     q = P * (s_chol <= tolerance)
-    alpha = np.min(d[q] / (d[q] - s_chol[q]))
+
+    # A parameter that is already at its bound (d == s_chol <= tolerance, e.g. an exact zero of a symmetric system)
+    # allows no step at all; dividing 0 / 0 for it would turn alpha, and with it every entry of d, into NaN.
+    step = d[q] - s_chol[q]
+    alpha = np.min(np.where(step > 0.0, d[q] / np.where(step > 0.0, step, 1.0), 0.0))
 
     # set d as close to s as possible while maintaining non-negativity
     d = d + alpha * (s_chol - d)
